@@ -21,6 +21,8 @@ import (
 	"sync/atomic"
 	"time"
 
+	"github.com/XiaoMi/Gaea/proxy/plan"
+
 	"verif/engine/enum"
 	"verif/engine/ev"
 	"verif/engine/gx"
@@ -261,25 +263,51 @@ func shardRows(rg *rig.Rig, st *rig.Store) (rows [][]sqlref.Value, misplaced str
 	return rows, misplaced
 }
 
+// prepared is what one (layout, statement) needs before it meets a content.
+type prepared struct {
+	sql      string
+	ref      *sqlref.Prepared
+	refErr   error
+	plan     plan.Plan
+	buildErr error
+}
+
+func prepare(rg *rig.Rig, c Case) *prepared {
+	p := &prepared{sql: render(c, rg.L)}
+	if c.KeyStmt < 0 {
+		st, err := rg.Parse(p.sql)
+		p.ref, p.refErr = &sqlref.Prepared{Stmt: st}, err
+	}
+	p.plan, p.buildErr = rg.Build(p.sql)
+	return p
+}
+
 // run executes one case from scratch: own plan, own store.
 func run(w *worker, c Case) outcome {
 	l := parseLayout(c.Layout)
 	rg := w.rig(l)
-	sql := render(c, l)
-	o := outcome{sql: sql}
 	st, err := rg.NewStore(contentRows(c.Content))
 	if err != nil {
 		ev.Fatalf("%v", err)
 	}
+	return runPrepared(rg, prepare(rg, c), c, st, nil)
+}
+
+// runPrepared executes a prepared statement on a store it may modify.
+func runPrepared(rg *rig.Rig, p *prepared, c Case, st *rig.Store, ex *rig.Exec) outcome {
+	if ex == nil {
+		ex = rg.NewExec(st)
+	}
+	ex.Reset(st)
+	sql := p.sql
+	o := outcome{sql: sql}
 	if c.KeyStmt >= 0 {
 		// assigning the sharding column must be refused by the proxy itself
-		p, err := rg.Build(sql)
-		if err != nil {
-			o.status, o.errText = "ok", err.Error()
+		if p.buildErr != nil {
+			o.status, o.errText = "ok", p.buildErr.Error()
 			return o
 		}
-		ex := rg.NewExec(st)
-		_, err, _ = ex.Run(p)
+		_, err, _ := ex.Run(p.plan)
 		for _, cl := range ex.Calls {
 			o.shards = append(o.shards, cl.Slice+"/"+cl.DB+": "+cl.SQL)
 		}
@@ -287,25 +315,22 @@ func run(w *worker, c Case) outcome {
 		o.detail = fmt.Sprintf("a plan was built (execution error: %v)", err)
 		return o
 	}
-	refStmt, err := rg.Parse(sql)
-	if err != nil {
-		o.status, o.errText = "invalid", err.Error()
+	if p.refErr != nil {
+		o.status, o.errText = "invalid", p.refErr.Error()
 		return o
 	}
 	before := multiset(st.Union.Tables["db.t"].Rows)
-	refRes, err := sqlref.Exec(st.Union, refStmt)
+	refRes, err := p.ref.Exec(st.Union)
 	if err != nil {
 		o.status, o.errText = "invalid", err.Error()
 		return o
 	}
 	want := multiset(st.Union.Tables["db.t"].Rows)
-	p, err := rg.Build(sql)
-	if err != nil {
-		o.status, o.errText = "rejected_build", err.Error()
+	if p.buildErr != nil {
+		o.status, o.errText = "rejected_build", p.buildErr.Error()
 		return o
 	}
-	ex := rg.NewExec(st)
-	res, err, _ := ex.Run(p)
+	res, err, _ := ex.Run(p.plan)
 	o.routed = len(ex.Calls)
 	for _, cl := range ex.Calls {
 		o.shards = append(o.shards, cl.Slice+"/"+cl.DB+": "+cl.SQL)
@@ -387,8 +412,35 @@ var (
 
 // report confirms a violation five times and reports it when it is locally minimal (no
 // row can be dropped and the tree cannot be cut down to one of its atoms).
+var violSet sync.Map
+
+func caseKey(c Case) string { return fmt.Sprint(c.Layout, c.Tmpl, c.Tree, c.Content, c.KeyStmt) }
+
+func violates(w *worker, c Case) bool {
+	k := caseKey(c)
+	if _, ok := violSet.Load(k); ok {
+		return true
+	}
+	if run(w, c).status == "violation" {
+		violSet.Store(k, true)
+		return true
+	}
+	return false
+}
+
 func report(r *ev.Run, w *worker, c Case, first outcome) {
 	l := parseLayout(c.Layout)
+	violSet.Store(caseKey(c), true)
+	if c.KeyStmt < 0 {
+		for i := range c.Content {
+			cc := c
+			cc.Content = append(append([]int{}, c.Content[:i]...), c.Content[i+1:]...)
+			if _, ok := violSet.Load(caseKey(cc)); ok {
+				r.Add("violations_nonminimal", 1)
+				return
+			}
+		}
+	}
 	for i := 0; i < 4; i++ {
 		again := run(w, c)
 		if again.status != first.status || again.kind != first.kind {
@@ -400,7 +452,7 @@ func report(r *ev.Run, w *worker, c Case, first outcome) {
 		for i := range c.Content {
 			cc := c
 			cc.Content = append(append([]int{}, c.Content[:i]...), c.Content[i+1:]...)
-			if run(w, cc).status == "violation" {
+			if violates(w, cc) {
 				r.Add("violations_nonminimal", 1)
 				return
 			}
@@ -414,7 +466,7 @@ func report(r *ev.Run, w *worker, c Case, first outcome) {
 				subs = append(subs, s2)
 			}
 			for _, s := range subs {
-				if run(w, s).status == "violation" {
+				if violates(w, s) {
 					r.Add("violations_nonminimal", 1)
 					return
 				}
@@ -491,6 +543,7 @@ func main() {
 			}
 		}
 	}
+	pairTmpl := map[string]bool{"delete": true, "update_two": true, "update_alias": true, "delete_db": true}
 	type item struct {
 		l   rig.Layout
 		t   int
@@ -508,8 +561,29 @@ func main() {
 	for tri, tr := range trees {
 		for _, l := range layouts {
 			for t := range tmpls {
+				// quick tier: two-atom trees meet four of the templates (routing of
+				// AND/OR is independent of how the statement spells its table)
+				if r.Quick() && tr[0] >= 3 && tr[0] <= 8 && !pairTmpl[tmpls[t].name] {
+					continue
+				}
 				items = append(items, item{l: l, t: t, tr: tr, tri: tri, ks: -1})
 			}
+		}
+	}
+
+	// one pristine store per (layout, content); every case works on a clone
+	templates := map[string][]*rig.Store{}
+	for _, l := range layouts {
+		rg, err := rig.New(l)
+		if err != nil {
+			ev.Fatalf("%v", err)
+		}
+		for _, c := range contents {
+			st, err := rg.NewStore(contentRows(c))
+			if err != nil {
+				ev.Fatalf("%s: %v", l.Name(), err)
+			}
+			templates[l.Name()] = append(templates[l.Name()], st)
 		}
 	}
 
@@ -564,12 +638,15 @@ func main() {
 			maxRows = rowsPair
 		}
 		var nEval, nOK, nRejB, nRejE, nInvalid, nTouched2 int64
+		rg := w.rig(it.l)
+		prep := prepare(rg, Case{Layout: it.l.Name(), Tmpl: it.t, Tree: it.tr, KeyStmt: -1})
+		ex := rg.NewExec(nil)
 		for ci, content := range contents {
 			if len(content) > maxRows {
 				continue
 			}
 			c := Case{Layout: it.l.Name(), Tmpl: it.t, Tree: it.tr, Content: content, KeyStmt: -1}
-			o := run(w, c)
+			o := runPrepared(rg, prep, c, templates[it.l.Name()][ci].Clone(), ex)
 			switch o.status {
 			case "invalid":
 				nInvalid++
@@ -594,7 +671,7 @@ func main() {
 				report(r, w, c, o)
 			} else {
 				nOK++
-				if o.touched >= 2 && it.tr[0] >= 3 && it.tr[0] <= 8 {
+				if o.touched >= 2 {
 					key := tmpls[it.t].name
 					sampleMu.Lock()
 					if !sampled[key] && len(sampled) < 6 {
@@ -629,8 +706,12 @@ func main() {
 		names = append(names, l.Name())
 	}
 	r.Set("layouts", names)
-	r.Set("bounds", fmt.Sprintf("%d statement templates x %d WHERE trees (%d atoms; forms none, a, NOT a, and 6 two-atom forms) x contents: all multisets of <=%d rows (<=%d rows for two-atom trees) of a %d-row universe; %d key-assigning statements per layout",
-		len(tmpls), len(trees), len(atoms), rowsSingle, rowsPair, len(rig.Universe), len(keyAssign)))
+	nt := len(tmpls)
+	if r.Quick() {
+		nt = len(pairTmpl)
+	}
+	r.Set("bounds", fmt.Sprintf("%d statement templates (%d of them for two-atom trees) x %d WHERE trees (%d atoms; forms none, a, NOT (a), NOT a, and 6 two-atom forms) x contents: all multisets of <=%d rows (<=%d rows for two-atom trees) of a %d-row universe; %d key-assigning statements per layout",
+		len(tmpls), nt, len(trees), len(atoms), rowsSingle, rowsPair, len(rig.Universe), len(keyAssign)))
 	r.Set("universe_items", len(items))
 	r.Set("rule", "cases = layout x statement template x WHERE tree x content (enum.Multisets over rig.Universe), plus the key-assigning statements; a case is non-trivial when the statement changed rows on at least two physical tables (so rows and affected-row counts of several shards had to agree with the single database); distinct_nontrivial counts distinct (template, tree, content) triples among those")
 	r.Assume("sqlref implements MySQL's UPDATE/DELETE semantics for the supported subset (affected rows = rows actually changed); it executes both the original statement on the single table and every rewritten statement on its shard")
